@@ -456,7 +456,7 @@ func (v *Validator) ValidatePath(p *ingest.GenericFeature, fs []ingest.Feature) 
 	if err := ingest.ValidatePath(p, &o, v.locations); err == nil {
 		fs = append(fs, p)
 		state = ValidationStateValid
-		if p.GeometryLen() < 3 || !p.AllTags().ClosedPath() {
+		if !v.isValidForArea(p) {
 			state = ValidationStateValidButNotForArea
 		}
 	} else {
@@ -474,6 +474,25 @@ func (v *Validator) ValidatePath(p *ingest.GenericFeature, fs []ingest.Feature) 
 	}
 	v.lock.Unlock()
 	return fs
+}
+
+// isValidForArea returns true if the valid path p can be the boundary of
+// an area, following ingest.ValidatePathForArea: a closed loop of at least
+// 3 points.
+func (v *Validator) isValidForArea(p *ingest.GenericFeature) bool {
+	n := p.GeometryLen()
+	if n < 3 {
+		return false
+	}
+	pointAt := func(i int) s2.Point {
+		if id := p.Reference(i).Source(); id.IsValid() {
+			if ll, err := v.locations.FindLocationByID(id); err == nil {
+				return s2.PointFromLatLng(ll)
+			}
+		}
+		return p.PointAt(i)
+	}
+	return pointAt(0) == pointAt(n-1)
 }
 
 func (v *Validator) ValidateArea(a *ingest.AreaFeature, fs []ingest.Feature) []ingest.Feature {
